@@ -31,6 +31,7 @@ func init() {
 	ops["dov"] = opDov
 	ops["clean"] = opClean
 	ops["validate"] = opValidate
+	ops["combo"] = opCombo
 	ops["escape"] = opEscape
 	ops["agg"] = opAgg
 	ops["fmax"] = opFmax
@@ -559,3 +560,33 @@ func opMerge(a map[string]interface{}) (string, string, interface{}) {
 }
 
 var _ = strings.Join
+
+// combo: parser.ParseIntoNodeTree on a text (parentheses or braces), canonical tree text
+func comboShow(n *tree.Node, depth int) string {
+	if n == nil {
+		return "N"
+	}
+	if depth > 300 {
+		return "DEEP"
+	}
+	if n.IsEmptyOrNilNode() {
+		return "E"
+	}
+	if n.Left == nil && n.Right == nil && n.LogicalOperator == "" {
+		if s, ok := n.Entry.(string); ok {
+			return "L<" + s + ">"
+		}
+		return "?"
+	}
+	return "C[" + n.LogicalOperator + "|" + strings.Join(n.SharedLeft, "^") + "|" + strings.Join(n.SharedRight, "^") + "](" +
+		comboShow(n.Left, depth+1) + ")(" + comboShow(n.Right, depth+1) + ")"
+}
+
+func opCombo(a map[string]interface{}) (string, string, interface{}) {
+	lp, rp := "(", ")"
+	if aBool(a, "brace") {
+		lp, rp = "{", "}"
+	}
+	n, out, err := parser.ParseIntoNodeTree(aStr(a, "text"), aBool(a, "nested"), lp, rp)
+	return "ok", "", J{"node": comboShow(n, 0), "out": out, "code": err.ErrorCode}
+}
